@@ -329,6 +329,63 @@ func partCheck(c *core.Ctx, n, size int) bool {
 	if !eqSlice(in, snap) {
 		return fail("input-modified", "the input slice was modified")
 	}
+	// the helpers instantiated with a DEFINED slice type (type myInts []int): same pieces
+	{
+		type myInts []int
+		mi := myInts(in)
+		gc, gw := slices.Chunk(mi, size), slices.Windowed(mi, size)
+		pc, pw := slices.Chunk(in, size), slices.Windowed(in, size)
+		okN := len(gc) == len(pc) && len(gw) == len(pw)
+		for i := 0; okN && i < len(gc); i++ {
+			okN = eqSlice([]int(gc[i]), pc[i])
+		}
+		for i := 0; okN && i < len(gw); i++ {
+			okN = eqSlice([]int(gw[i]), pw[i])
+		}
+		var fc int
+		slices.ChunkFunc(mi, size, func(myInts) { fc++ })
+		if !okN || fc != len(pc) || len(slices.Pairs(mi)) != len(slices.Pairs(in)) {
+			return fail("defined-slice-type", fmt.Sprintf("with a defined slice type (type myInts []int) Chunk/Windowed/ChunkFunc/Pairs give %d/%d/%d pieces, with []int %d/%d/%d", len(gc), len(gw), fc, len(pc), len(pw), len(pc)))
+		}
+	}
+	// a callback that panics half way (the caller recovers), then ordinary calls
+	if n >= 2 && size <= n {
+		try := func(f func()) { defer func() { recover() }(); f() }
+		k := 0
+		try(func() {
+			slices.WindowedFunc(in, size, func([]int) {
+				k++
+				if k == 2 || n-size+1 < 2 {
+					panic("callback panics")
+				}
+			})
+		})
+		k = 0
+		try(func() {
+			slices.ChunkFunc(in, size, func([]int) {
+				k++
+				if k == 2 || (n+size-1)/size < 2 {
+					panic("callback panics")
+				}
+			})
+		})
+		k = 0
+		try(func() {
+			slices.PairsFunc(in, func(a, b int) {
+				k++
+				if k == 2 || n < 3 {
+					panic("callback panics")
+				}
+			})
+		})
+		w, ch, pr := 0, 0, 0
+		slices.WindowedFunc(in, size, func([]int) { w++ })
+		slices.ChunkFunc(in, size, func([]int) { ch++ })
+		slices.PairsFunc(in, func(a, b int) { pr++ })
+		if w != n-size+1 || ch != (n+size-1)/size || pr != n-1 {
+			return fail("after-panicking-callback", fmt.Sprintf("after calls whose callbacks panicked (recovered by the caller), WindowedFunc/ChunkFunc/PairsFunc made %d/%d/%d calls, expected %d/%d/%d", w, ch, pr, n-size+1, (n+size-1)/size, n-1))
+		}
+	}
 	// the same slice changed in place and passed again: the helpers must look at it
 	// afresh (a result remembered by the slice's identity would be stale)
 	if n >= 2 {
